@@ -5,6 +5,7 @@ CONSTANTS
   Origins = {0}
   OverflowChecks = TRUE
   RelaxEmpty = FALSE
+  Prefill = FALSE
 SPECIFICATION TraceSpec
 POSTCONDITION TraceAccepted
 CHECK_DEADLOCK FALSE
